@@ -26,12 +26,21 @@ KEEP_RECV = ['g_base', 'g_firing', 'id', 'IDLE', 'CONNECTING', 'CONNECTED', 'pro
              'onPublish', 'onDisconnection', 'onMqttConnectionMade', 'pdu', 'tr_closes']
 
 
+@spec
+def pub_wf(packet: Bytes) -> bool:
+    """a decodable PUBLISH: the remaining-length field ends inside the packet, topic length and topic inside the body, topic valid UTF-8, and a
+    packet identifier after it when the QoS bits are not 0"""
+    return (whole(packet) and len(body(packet)) >= 2 and 2 + (body(packet)[0] * 256 + body(packet)[1]) <= len(body(packet))
+            and valid_utf8(body(packet)[2:2 + (body(packet)[0] * 256 + body(packet)[1])])
+            and implies((packet[0] // 2) % 4 > 0, (body(packet)[0] * 256 + body(packet)[1]) + 4 <= len(body(packet))))
+
+
 @contract('mqtt.pdu.PUBLISH.decode', props=['C16', 'C06'])
 def _(self: Ref['mqtt.pdu.PUBLISH'], packet: Bytes):
-    """arbitrary bytes: either an exception (truncated / corrupt / invalid UTF-8), or fields that all lie inside the
-    frame as delimited by its remaining length"""
+    """any complete packet: an exception exactly when it is not a decodable PUBLISH (truncated / invalid UTF-8),
+    otherwise every field is the one the bytes carry"""
     requires(is_unset(self.deferred) and is_unset(self.alarm))
-    raises(Exception)
+    raises(Exception, when=not pub_wf(packet))
     modifies(self.encoded, self.dup, self.qos, self.retain, self.topic, self.msgId, self.payload)
     B = body(packet)
     tl = B[0] * 256 + B[1]
@@ -154,6 +163,7 @@ def _(self: Ref['mqtt.client.pubsubs.MQTTProtocol'], packet: Bytes):
     na = as_int(self.transport.tr_aborts)
     # unless the packet is corrupt (and the connection aborted instead), a PUBLISH the state accepts is answered and
     # delivered with exactly the fields its bytes carry
+    ensures(implies(acc and pub_wf(packet), self.transport.tr_aborts == na))      # a well-formed PUBLISH is never dropped
     ensures(implies(acc and self.transport.tr_aborts == na and q == 0, out(self) == old(out(self))))
     ensures(implies(acc and self.transport.tr_aborts == na and q == 1, out(self) == old(out(self)) + lb(sPUBACK(mid))))
     ensures(implies(acc and self.transport.tr_aborts == na and q == 2, out(self) == old(out(self)) + lb(sPUBREC(mid))))
@@ -285,6 +295,7 @@ def _(self: Ref['mqtt.client.pubsubs.MQTTProtocol'], packet: Bytes):
     pq = (packet[0] // 2) % 4
     pmid = B[ptl + 2] * 256 + B[ptl + 3]
     ensures(implies(t == 2 and self.state == self.CONNECTING and len(B) >= 2, d.d_fired and is_none(self.connReq)))
+    ensures(implies(t == 3 and conn and sub and pub_wf(packet), self.transport.tr_aborts == na))
     ensures(implies(t == 3 and conn and sub and self.transport.tr_aborts == na and pq == 1, out(self) == old(out(self)) + lb(sPUBACK(pmid))))
     ensures(implies(t == 3 and conn and sub and self.transport.tr_aborts == na and pq == 2, out(self) == old(out(self)) + lb(sPUBREC(pmid))))
     ensures(implies(t == 3 and conn and sub and self.transport.tr_aborts == na and pq == 0 and is_func(self.onPublish),
